@@ -33,6 +33,14 @@ type ctlDecision struct {
 	panicVal string
 }
 
+// raiseRuntimeError panics with a genuine runtime.Error (a write to a nil map), as buggy transport code would.
+func raiseRuntimeError() {
+	var m map[string]int
+	m["injected"] = 1
+}
+
+const runtimePanicText = "assignment to entry in nil map"
+
 // patterns: what each non-root certificate's sources answer
 //
 //	G: OCSP Good (one exchange)         R: OCSP Revoked (one exchange)
@@ -291,6 +299,8 @@ func (s *c17Scenario) body(c *mc.Ctx) {
 			switch d.kind {
 			case "panic":
 				panic(d.panicVal)
+			case "panic-runtime-error":
+				raiseRuntimeError()
 			case "cancel":
 				cancel()
 				return netsim.Answer{Err: context.Canceled}
@@ -322,6 +332,8 @@ func (s *c17Scenario) body(c *mc.Ctx) {
 				switch cd.kind {
 				case "panic":
 					panic(cd.panicVal)
+				case "panic-runtime-error":
+					raiseRuntimeError()
 				case "cancel":
 					cancel()
 					return nil, context.Canceled
@@ -391,7 +403,7 @@ func (s *c17Scenario) body(c *mc.Ctx) {
 		op := parked[k]
 		d := ctlDecision{kind: "answer"}
 		if s.inject > 0 && c.Deviations() < s.inject && !op.Epilogue {
-			kinds := 4
+			kinds := 5
 			if s.entry == "checkstatus" || strings.Contains(op.Key, "cache-") {
 				kinds = 2 // no context to cancel / cache seams only panic
 			}
@@ -405,6 +417,10 @@ func (s *c17Scenario) body(c *mc.Ctx) {
 			case 3:
 				d = ctlDecision{kind: "answer-then-cancel"}
 				cancelled = true
+			case 4:
+				// a panic whose value is a runtime.Error (the Go type of the value must not matter)
+				d = ctlDecision{kind: "panic-runtime-error", panicVal: runtimePanicText}
+				injectedPanics = append(injectedPanics, runtimePanicText)
 			}
 		}
 		released = append(released, op.Key)
@@ -479,7 +495,7 @@ func (s *c17Scenario) body(c *mc.Ctx) {
 			c.Outcome("panic-injected")
 			if r.pan == nil {
 				c.Fail(sigBase+" injected-panic-lost", "a panic was raised inside a per-certificate check (%v) but the call returned normally (err=%v)", injectedPanics, r.err)
-			} else if !containsStr(injectedPanics, fmt.Sprint(r.pan)) {
+			} else if !containsStr(injectedPanics, fmt.Sprint(r.pan)) && !(containsStr(injectedPanics, runtimePanicText) && strings.Contains(fmt.Sprint(r.pan), runtimePanicText)) {
 				c.Fail(sigBase+" foreign-panic-value", "caller recovered %v, injected %v", r.pan, injectedPanics)
 			}
 		case r.pan != nil:
